@@ -619,3 +619,328 @@ def rand_prog(rng, max_len=12, fmts=None, allow_slow=True):
                 ins.append("frombig/%s/%x" % (si, rng.getrandbits(rng.randrange(1, 200))))
             regs.append(si)
     return "prog " + " ".join(ins)
+
+
+# ---------------------------------------------------------------- C07 native patterns
+def f32_patterns(rng, n):
+    pats = [0, 1, 2, 0x7fffff, 0x800000, 0x800001, 0x7f7fffff, 0x7f800000, 0x7f800001, 0x7fc00000, 0x3f800000, 0x3f7fffff, 0x3f800001,
+            0x00400000, 0x4b000000, 0x4b000001, 0x4affffff, 0x3f000000, 0x3effffff, 0x3f000001, 0x40200000, 0x40600000, 0x5f000000, 0x5effffff]
+    pats += [p | 0x80000000 for p in pats]
+    for e in range(0, 256, 5):
+        for m in (0, 1, 0x400000, 0x7fffff):
+            pats.append((e << 23) | m)
+    while len(pats) < n:
+        c = rng.randrange(4)
+        if c == 0:
+            pats.append(rng.getrandbits(32))
+        elif c == 1:
+            pats.append((rng.randrange(2) << 31) | rng.getrandbits(23))  # subnormal
+        elif c == 2:
+            pats.append((rng.randrange(2) << 31) | (rng.choice([1, 2, 126, 127, 128, 150, 151, 253, 254]) << 23) | rng.getrandbits(23))
+        else:
+            pats.append((rng.randrange(2) << 31) | (rng.randrange(100, 160) << 23) | rng.choice([0, 1, 0x7fffff, 0x400000, rng.getrandbits(23)]))
+    return pats
+
+
+def f64_patterns(rng, n):
+    pats = [0, 1, 2, 0xfffffffffffff, 0x10000000000000, 0x10000000000001, 0x7fefffffffffffff, 0x7ff0000000000000, 0x7ff0000000000001,
+            0x7ff8000000000000, 0x3ff0000000000000, 0x3fefffffffffffff, 0x3ff0000000000001, 0x4330000000000000, 0x4330000000000001,
+            0x432fffffffffffff, 0x3fe0000000000000, 0x3fdfffffffffffff, 0x4004000000000000, 0x400c000000000000, 0x43e0000000000000,
+            0x47efffffe0000000, 0x47efffffefffffff, 0x47effffff0000000, 0x36a0000000000000, 0x369fffffffffffff, 0x36a0000000000001,
+            0x3690000000000000, 0x3690000000000001, 0x380fffffe0000000, 0x3810000000000000]
+    pats += [p | (1 << 63) for p in pats]
+    while len(pats) < n:
+        c = rng.randrange(5)
+        if c == 0:
+            pats.append(rng.getrandbits(64))
+        elif c == 1:
+            pats.append((rng.randrange(2) << 63) | rng.getrandbits(52))
+        elif c == 2:
+            pats.append((rng.randrange(2) << 63) | (rng.choice([1, 2, 1022, 1023, 1024, 1075, 1076, 2045, 2046]) << 52) | rng.getrandbits(52))
+        elif c == 3:
+            # values that are near f32 rounding boundaries
+            e = rng.choice([897, 896, 873, 874, 872, 1150, 1151, 1023, 1000])
+            m = (rng.getrandbits(23) << 29) | rng.choice([0, 1 << 28, (1 << 28) + 1, (1 << 28) - 1, (1 << 29) - 1])
+            pats.append((rng.randrange(2) << 63) | (e << 52) | m)
+        else:
+            pats.append((rng.randrange(2) << 63) | (rng.randrange(1000, 1050) << 52) | rng.choice([0, 1, (1 << 52) - 1, 1 << 51, rng.getrandbits(52)]))
+    return pats
+
+
+def nat_lines(rng, n):
+    lines = []
+    p64 = f64_patterns(rng, n)
+    p32 = f32_patterns(rng, n)
+    ops = ["add", "sub", "mul", "div", "rem", "cmp", "min", "max"]
+    for i in range(n):
+        a, b = rng.choice(p64), rng.choice(p64)
+        k = rng.randrange(6)
+        if k == 0:
+            b = a
+        elif k == 1:
+            b = a ^ (1 << 63)
+        elif k == 2:
+            b = (a + rng.choice([1, -1])) & (2 ** 64 - 1)
+        lines.append("nat64 %s %d %d" % (rng.choice(ops), a, b))
+        a, b = rng.choice(p32), rng.choice(p32)
+        if k == 0:
+            b = a
+        elif k == 1:
+            b = a ^ (1 << 31)
+        elif k == 2:
+            b = (a + rng.choice([1, -1])) & (2 ** 32 - 1)
+        lines.append("nat32 %s %d %d" % (rng.choice(ops), a, b))
+    for p in p64[: n // 2]:
+        lines.append("nat64 trunc %d 0" % p)
+        lines.append("nat64 round %d 0" % p)
+    for p in p32[: n // 2]:
+        lines.append("nat32 trunc %d 0" % p)
+        lines.append("nat32 round %d 0" % p)
+    return lines
+
+
+# ---------------------------------------------------------------- C09 big integers
+def rand_limbs(rng, n):
+    ws = []
+    for _ in range(n):
+        c = rng.randrange(6)
+        ws.append([0, 1, 2 ** 63, 2 ** 64 - 1, rng.getrandbits(64), rng.getrandbits(64)][c])
+    return ws
+
+
+def big_tok(rng, maxlen=8, zero_pad=True):
+    n = rng.choice([1, 1, 2, 2, 3, 5, 6, rng.randrange(1, maxlen + 1)])
+    ws = rand_limbs(rng, n)
+    v = sum(w << (64 * i) for i, w in enumerate(ws))
+    ln = n + (rng.choice([0, 0, 1, 3]) if zero_pad else 0)
+    return "%x/%d" % (v, ln), v
+
+
+def big_lines(rng, n, maxlen=8, karatsuba=0):
+    lines = []
+    for _ in range(n):
+        a, av = big_tok(rng, maxlen)
+        b, bv = big_tok(rng, maxlen)
+        op = rng.choice(["add", "sub", "mul", "div", "cmp", "shl", "shr", "mask", "msb", "tz", "dec", "bin", "flags", "powi", "add", "sub", "mul", "div"])
+        if op in ("add", "sub", "mul", "cmp"):
+            if rng.randrange(6) == 0:
+                b = a
+            lines.append("big %s %s %s" % (op, a, b))
+        elif op == "div":
+            if bv == 0:
+                continue
+            if rng.randrange(4) == 0:  # divisor much smaller / single word
+                b, bv = big_tok(rng, 1, False)
+                if bv == 0:
+                    continue
+            lines.append("big div %s %s" % (a, b))
+        elif op in ("shl", "shr", "mask"):
+            k = rng.choice([0, 1, 63, 64, 65, 127, 128, 129, rng.randrange(0, 64 * maxlen + 70), rng.randrange(0, 20000) if op != "shl" else rng.randrange(0, 2000)])
+            lines.append("big %s %s %d" % (op, a, k))
+        elif op == "tz":
+            if av:
+                lines.append("big tz %s" % a)
+        elif op == "powi":
+            s, sv = big_tok(rng, 2, False)
+            lines.append("big powi %s %d" % (s, rng.choice([0, 1, 2, 3, 5, 8, 17, 33])))
+        else:
+            lines.append("big %s %s" % (op, a))
+    for k in [0, 1, 63, 64, 65, 127, 128, 129, 300]:
+        lines.append("big allones %d" % k)
+        lines.append("big onehot %d" % k)
+    for _ in range(karatsuba):
+        la, lb = rng.choice([(64, 64), (65, 65), (65, 1), (1, 65), (63, 66), (128, 129), (130, 64), (200, 257), (70, 300), (129, 129)])
+        av = sum(w << (64 * i) for i, w in enumerate(rand_limbs(rng, la)))
+        bv = sum(w << (64 * i) for i, w in enumerate(rand_limbs(rng, lb)))
+        lines.append("big mul %x/%d %x/%d" % (av, la, bv, lb))
+        if bv:
+            lines.append("big div %x/%d %x/%d" % (av * bv + rng.getrandbits(30), la + lb, bv, lb))
+    return lines
+
+
+# ---------------------------------------------------------------- C13 display
+def disp_lines_real(rng, n):
+    lines = []
+    fm = [(5, 11), (8, 24), (11, 53), (15, 113), (19, 237), (10, 120), (8, 8), (20, 600), (16, 1100), (12, 300), (6, 70)]
+    for _ in range(n):
+        E, P = rng.choice(fm)
+        s = Sem(E, P, rng.choice(MODES))
+        k = rng.randrange(8)
+        sg = rng.randrange(2)
+        if k == 0:
+            a = rng.choice(SPECIALS + ["X1:0:0"])
+        elif k == 1:  # integers
+            e = rng.randrange(0, min(s.emax, 3000) + 1)
+            m = rand_mant(rng, P)
+            sh = max(0, (P - 1) - e)
+            m = (m >> sh) << sh
+            a = ftok("N", sg, e, m)
+        elif k == 2:  # tiny
+            e = max(s.emin, -rng.randrange(1, 4000))
+            a = ftok("N", sg, e, rand_mant(rng, P) if e > s.emin else rng.randrange(1, 2 ** (P - 1)))
+        elif k == 3:
+            a = ftok("N", sg, min(s.emax, rng.randrange(0, 4000)), rand_mant(rng, P))
+        elif k == 4:
+            a = ftok("N", sg, rng.randrange(-8, P + 8), rand_mant(rng, P))
+        else:
+            a = rand_finite(rng, s, sg) if E <= 12 else ftok("N", sg, rng.randrange(-3000, 3000), rand_mant(rng, P))
+        lines.append("disp %s %s" % (s, a))
+    return lines
+
+
+# ---------------------------------------------------------------- C14 parse
+def hexs(b):
+    return b.hex() if b else "-"
+
+
+def rand_digits(rng, lo=0, hi=25):
+    n = rng.choice([lo, 1, 1, 2, 3, 5, 8, rng.randrange(lo, hi + 1)])
+    n = max(lo, n)
+    k = rng.randrange(5)
+    if k == 0:
+        return b"0" * n
+    if k == 1:
+        return b"9" * n
+    if k == 2:
+        return b"0" * (n // 2) + bytes(rng.choice(b"0123456789") for _ in range(n - n // 2))
+    return bytes(rng.choice(b"0123456789") for _ in range(n))
+
+
+def parse_lines(rng, n):
+    lines = []
+    fm = [(5, 11), (8, 24), (11, 53), (15, 113), (10, 120), (8, 8), (19, 237)]
+    for _ in range(n):
+        E, P = rng.choice(fm)
+        s = Sem(E, P, rng.choice(MODES))
+        k = rng.randrange(12)
+        sign = rng.choice([b"", b"", b"-", b"+"])
+        if k <= 6:  # well-formed numbers
+            ip = rand_digits(rng, 0, 30)
+            s_ = sign + ip
+            if rng.randrange(3):
+                s_ += b"." + rand_digits(rng, 0, 30)
+            if rng.randrange(3) == 0:
+                ex = rng.choice([0, 1, 2, 5, 10, 20, 38, 308, 400, rng.randrange(0, 60), rng.randrange(0, 5000)])
+                s_ += rng.choice([b"e", b"E"]) + rng.choice([b"", b"+", b"-"]) + (b"0" * rng.randrange(3)) + str(ex).encode()
+        elif k == 7:
+            s_ = sign + rng.choice([b"inf", b"INF", b"Inf", b"nan", b"NaN", b"NAN", b"iNf", b"nAn", b"infinity", b"na", b"nann"])
+        elif k == 8:  # malformed exponent
+            s_ = sign + rand_digits(rng, 1, 6) + rng.choice([b"e", b"E", b"e+", b"e-", b"e1e2", b"e1.5", b"e 1", b"e99999999999999999999", b"ee1", b"e+-1", b"e1+", b"E-"])
+        elif k == 9:  # foreign characters
+            base = sign + rand_digits(rng, 1, 6) + b"." + rand_digits(rng, 1, 6)
+            pos = rng.randrange(len(base) + 1)
+            ch = rng.choice([b" ", b"x", b",", b"_", b"\t", b"/", b":", b"f", b"d", "é".encode(), "٣".encode(), b"\x00", b"'", b"+", b"-", b"."])
+            s_ = base[:pos] + ch + base[pos:]
+        elif k == 10:
+            s_ = rng.choice([b"", b"+", b"-", b".", b"+.", b"-.", b"e", b".e1", b"1.", b".5", b"0", b"00", b"0.0", b"-0", b"-0.000", b"+-1", b"--1", b"1..2", b"1.2.3", b"e5", b".e", b"1e", b"-e1"])
+        else:
+            L = rng.randrange(0, 8)
+            try:
+                s_ = bytes(rng.randrange(0x20, 0x7f) for _ in range(L))
+            except ValueError:
+                s_ = b""
+        lines.append("parse %s %s" % (s, hexs(s_)))
+    return lines
+
+
+# ---------------------------------------------------------------- C15-C18, C20
+TRANS_FMTS_Q = [(5, 11), (8, 8), (8, 24), (11, 53), (15, 64), (15, 113), (10, 120), (19, 237)]
+TRANS_FMTS_T = TRANS_FMTS_Q + [(12, 190), (12, 200), (12, 300), (13, 500), (14, 1024), (6, 20), (5, 8), (9, 33)]
+
+
+def rand_arg(rng, s, lo_exp, hi_exp, sign=None):
+    sg = rng.randrange(2) if sign is None else sign
+    e = max(s.emin, min(s.emax, rng.randrange(lo_exp, hi_exp + 1)))
+    m = rand_mant(rng, s.P) if e > s.emin else rng.randrange(1, 2 ** (s.P - 1))
+    return ftok("N", sg, e, m)
+
+
+def fn_lines(rng, names, fmts, per, modes=MODES):
+    lines = []
+    for (E, P) in fmts:
+        for m in modes:
+            s = Sem(E, P, m)
+            for name in names:
+                args = list(SPECIALS) + ["X1:0:0"]
+                for _ in range(per):
+                    k = rng.randrange(8)
+                    if name in ("exp", "sigmoid"):
+                        a = [rand_arg(rng, s, -12, 10), rand_arg(rng, s, -3, 3), rand_arg(rng, s, 6, 10), rand_arg(rng, s, s.emin, s.emin + 4),
+                             rand_arg(rng, s, -s.P - 3, -s.P + 3), rand_arg(rng, s, 8, 10, 1), rand_arg(rng, s, 0, 9), rand_arg(rng, s, -30, 12)][k]
+                    elif name == "log":
+                        a = [rand_arg(rng, s, -1, 0, 0), rand_arg(rng, s, 0, 0, 0), rand_arg(rng, s, s.emin, s.emin + 3, 0), rand_arg(rng, s, s.emax - 3, s.emax, 0),
+                             ftok("N", 0, 0, 2 ** (P - 1)), ftok("N", 0, 0, 2 ** (P - 1) + 1), ftok("N", 0, -1, 2 ** P - 1), rand_arg(rng, s, -40, 40, 0)][k]
+                        if rng.randrange(12) == 0:
+                            a = rand_arg(rng, s, -3, 3, 1)
+                    else:  # sin cos tan sqr
+                        a = [rand_arg(rng, s, -10, 6), rand_arg(rng, s, 0, 1), rand_arg(rng, s, s.emin, s.emin + 3), rand_arg(rng, s, -s.P - 2, -s.P // 2),
+                             rand_arg(rng, s, 2, 6), rand_arg(rng, s, -3, 2), rand_arg(rng, s, -1, 0), rand_arg(rng, s, -25, 6)][k]
+                    args.append(a)
+                for a in args:
+                    lines.append("fn %s %s %s" % (name, s, a))
+    return lines
+
+
+def pow_lines(rng, fmts, per):
+    lines = []
+    for (E, P) in fmts:
+        for m in MODES:
+            s = Sem(E, P, m)
+            one = ftok("N", 0, 0, 2 ** (P - 1))
+            for _ in range(per):
+                x = rand_arg(rng, s, -6, 6, 0)
+                y = rand_arg(rng, s, -4, 5)
+                k = rng.randrange(10)
+                if k == 0:
+                    y = rng.choice(["Z0:0:0", "Z1:0:0"])
+                    x = rng.choice([x, "X0:0:0", "I0:0:0", "I1:0:0", "Z0:0:0", rand_arg(rng, s, -3, 3, 1)])
+                elif k == 1:
+                    x = one
+                    y = rng.choice([y, "I0:0:0", "X0:0:0", "Z0:0:0"])
+                elif k == 2:
+                    x = rand_arg(rng, s, -3, 3, 1)
+                elif k == 3:
+                    x = rng.choice(SPECIALS)
+                elif k == 4:
+                    y = rng.choice(SPECIALS)
+                lines.append("pow %s %s %s" % (s, x, y))
+            for _ in range(per):
+                x = rand_arg(rng, s, -4, 4)
+                n = rng.choice([0, 1, 2, 2, 3, 4, 5, 7, 8, 16, 31, 64, 100])
+                if rng.randrange(10) == 0:
+                    x = rng.choice(SPECIALS)
+                lines.append("powi %s %d %s" % (s, n, x))
+    return lines
+
+
+def frac_lines(rng, n):
+    lines = []
+    for _ in range(n):
+        E, P = rng.choice([(8, 24), (11, 53), (15, 113), (19, 237), (10, 120), (15, 64)])
+        s = Sem(E, P, "E")
+        k = rng.randrange(8)
+        if k == 0:
+            a = rng.choice(SPECIALS)
+        elif k == 1:  # p/q with small q
+            q = rng.randrange(1, 200)
+            p = rng.randrange(1, 2000)
+            # nearest float to p/q
+            from fractions import Fraction
+            v = Fraction(p, q)
+            e = v.numerator.bit_length() - v.denominator.bit_length()
+            if Fraction(2) ** e > v:
+                e -= 1
+            m = int(v / Fraction(2) ** (e - (P - 1)))
+            a = ftok("N", rng.randrange(2), e, m)
+        elif k == 2:
+            a = rand_arg(rng, s, -6, -1)
+        elif k == 3:
+            e = rng.randrange(0, P)
+            m = rand_mant(rng, P)
+            sh = (P - 1) - e
+            m = (m >> sh) << sh
+            a = ftok("N", rng.randrange(2), e, m)
+        else:
+            a = rand_arg(rng, s, -3, 8)
+        lines.append("frac %s %d %s" % (s, rng.randrange(0, 17), a))
+    return lines
